@@ -92,7 +92,7 @@ theorem slots_are_conserved (net : Nat → Info) (c : Nat) (acts : List Act) :
   ⟨(slots_run net c acts).sem, slots_all_free_at_rest net c acts⟩
 
 /-- the replicator of the Go text of this run looks at EVERY hash a fetched entry names (no early exit
-from the loop that queues them), as the model's `fetchOk` does -/
+from the loop that queues them), as the model's `fetched` does -/
 theorem parent_walk_tied_to_go_text : Gen.parentWalkExits = 0 := gen_parentWalk_complete
 
 end Orbit.C11
